@@ -75,6 +75,10 @@ OccCases == {[group |-> "occ", ty |-> "Integer", mino |-> mi, maxo |-> ma, count
 NilCases == {[group |-> "nil", ty |-> ty, nillable |-> nl, mino |-> mi, how |-> h, dflt |-> df,
               valid |-> CASE h = "nil" -> nl [] h = "absent" -> mi = 0 [] h = "value" -> TRUE] :
                 ty \in {"Integer", "Unicode"}, nl \in BOOLEAN, mi \in 0..1, h \in {"nil", "absent", "value"}, df \in BOOLEAN}
+            \* ... and the same for an OBJECT (a class customized to be non-nillable / mandatory)
+            \cup {[group |-> "nil", ty |-> "Obj", nillable |-> nl, mino |-> mi, how |-> h, dflt |-> FALSE,
+              valid |-> CASE h = "nil" -> nl [] h = "absent" -> mi = 0 [] h = "value" -> TRUE] :
+                nl \in BOOLEAN, mi \in 0..1, h \in {"nil", "absent", "value"}}
 
 \* -------------------------------------------------------------------- instants
 \* bound B = 2020-01-01T00:00:00Z; the probe is B + delta minutes, written with UTC offset `off`
@@ -83,6 +87,17 @@ ValidDate(f, delta) == CASE f = "ge" -> delta >= 0 [] f = "gt" -> delta > 0 [] f
                          [] f = "gegt" -> delta >= 0 /\ delta > 0 - 60 [] f = "lelt" -> delta <= 0 /\ delta < 60
 DateCases == {[group |-> "date", ty |-> "DateTime", facet |-> f, delta |-> d, off |-> o, valid |-> ValidDate(f, d)] :
                 f \in DateFacets, d \in {0 - 90, 0 - 30, 0 - 1, 0, 1, 30, 90}, o \in {0, 60, 0 - 60, 330}}
+
+\* ------------------------------------------------- mandatory members, own and inherited
+\* Der(Bas{m: Integer, mandatory}){n: Integer, mandatory}: a value lacking either member is invalid, whichever class declared it
+InhCases == {[group |-> "inh", ty |-> "Der", omit |-> o, valid |-> o = "none"] : o \in {"none", "m", "n", "both"}}
+
+\* ------------------------------------------------------------- times of day
+\* the bound has a sub-second part (hh:00:00.25); the probes spell fractions with one to six digits: ".3" is three tenths
+TimeProbes == { <<"", 0>>, <<".2", 200000>>, <<".25", 250000>>, <<".3", 300000>>, <<".250001", 250001>>, <<".24999", 249990>>,
+                <<".5", 500000>>, <<".05", 50000>>, <<".249", 249000>>, <<".251", 251000>> }
+TimeCases == {[group |-> "time", ty |-> "Time", facet |-> f, frac |-> p[1], us |-> p[2],
+               valid |-> IF f = "le25" THEN p[2] <= 250000 ELSE p[2] >= 250000] : f \in {"le25", "ge25"}, p \in TimeProbes}
 
 \* ------------------------------------------------------ lexical well-formedness
 \* (text families only: in dict documents the counterpart is "wrong value kind", C04)
@@ -121,7 +136,7 @@ OutCases == {[group |-> "out", ty |-> "ByteArray", facet |-> e, bytes |-> b, lit
                  <<"Double", "1e+22">>, <<"Double", "1e-07">>, <<"Double", "-0.0">>, <<"Double", "inf">>, <<"Double", "nan">>,
                  <<"Integer", "123456789012345678901234567890">>, <<"Unicode", "lt_amp">>, <<"Unicode", "sp_lead">> }}
 
-Cases == ObjArrCases \cup NumCases \cup BigCases \cup StrCases \cup EnumCases \cup OccCases \cup NilCases \cup DateCases \cup LexCases
+Cases == ObjArrCases \cup NumCases \cup BigCases \cup StrCases \cup EnumCases \cup OccCases \cup NilCases \cup DateCases \cup TimeCases \cup InhCases \cup LexCases
 
 \* ---- laws of the table (anti-vacuity): every facet is effective - some probe is rejected by it
 \* alone - and admits something
